@@ -164,6 +164,9 @@ func newCW(dir string, rng *rand.Rand, r *ev.Result, o worldOpt) (*cw, error) {
 	// the property: start over on a fresh directory.
 	var w *cw
 	var err error
+	if abandoned.Load() {
+		return nil, fmt.Errorf("an earlier server of this process could not be closed; no further servers are started in it")
+	}
 	for attempt := 0; attempt < 3; attempt++ {
 		w, err = newCWOnce(fmt.Sprintf("%s-%d", dir, attempt), rng, r, o)
 		if err == nil {
@@ -309,13 +312,24 @@ func udpSendOn(c net.Conn, b []byte, expect uint64) error {
 	return nil
 }
 
+// abandoned: a server of this process could not be closed (leaked lock, broken
+// invariant - Close would hang or panic). It keeps running until the process
+// exits, so the child must not start further servers (the process-global
+// clock and gates would drive the abandoned one as well).
+var abandoned atomic.Bool
+
+// curBatch is put into every replay so that `./check C13 --replay <file>` re-runs the batch.
+var curBatch run.Batch
+
 func (w *cw) shutdown() {
 	if w.udp != nil {
 		w.udp.Close()
 	}
-	if !w.broken {
-		w.Close()
+	if w.broken {
+		abandoned.Store(true)
+		return // its directory stays until the parent removes the batch directory
 	}
+	w.Close()
 	os.RemoveAll(w.Dir)
 }
 
@@ -326,6 +340,9 @@ func (w *cw) shutdown() {
 // retries across many job periods; only a lock that is never obtainable
 // counts. Returns false (and records the violation) on a leak.
 func lockProbe(s *server.GCAServer, r *ev.Result, ctx string, replay interface{}) bool {
+	if os.Getenv("VERIF_C13_DEBUG") == "noprobe" { // only for validating the goroutine-dump classification
+		return true
+	}
 	mainSeen, srvSeen := false, false
 	tries := 0
 	for i := 0; i < 600; i++ {
@@ -347,7 +364,7 @@ func lockProbe(s *server.GCAServer, r *ev.Result, ctx string, replay interface{}
 	if mainSeen {
 		which = "server-list-mutex"
 	}
-	r.Violationf("leaked-lock:"+which, map[string]interface{}{"after": ctx, "detail": replay},
+	r.Violationf("leaked-lock:"+which, map[string]interface{}{"after": ctx, "detail": replay, "batch": curBatch},
 		"%s could not be obtained in %d attempts over 15 s at quiescence after %s: a path returned without unlocking", which, tries, ctx)
 	return false
 }
@@ -371,7 +388,7 @@ func (w *cw) quiesce(ctx string, replay interface{}) bool {
 	}
 	if msg := safeInvariants(w.S); msg != "" {
 		w.broken = true
-		w.r.Violationf("invariant-broken", map[string]interface{}{"after": ctx, "detail": replay}, "CheckInvariants failed after %s: %s", ctx, msg)
+		w.r.Violationf("invariant-broken", map[string]interface{}{"after": ctx, "detail": replay, "batch": curBatch}, "CheckInvariants failed after %s: %s", ctx, msg)
 		return false
 	}
 	w.r.Count("invariant_checks", 1)
